@@ -1,11 +1,13 @@
 import QProofs.GraphBasics
+import QProofs.GenInstsOK
 /-!
 # C01 — quantize() returns a well-formed model or raises
 
-The structural conclusion of C01 is the decidable predicate `WF.modelOK`
-(QModel/WF.lean).  Property theorems available so far are the local ones below;
-the step theorems (`C01.step_*`: each single graph transformation preserves
-`WF.modelOK`) are imported from QProofs/GraphStep.lean when present.
+The structural conclusion of C01 is the decidable predicate `WF.modelOK` (QModel/WF.lean):
+buffer 0 empty, all tensor/buffer/opcode indices in range, tensor names unique per subgraph, every
+operand a graph input, a constant or the result of an earlier operator, every tensor produced at
+most once and never an input/constant, graph inputs/outputs and signature entries valid.
+"Raises" is the `.error` branch of the `Except` monad.
 -/
 open Graph Perform
 
@@ -21,5 +23,37 @@ theorem opcode_index_ok (codes : List Nat) (code : Nat) :
     (addOpCode codes code).1[(addOpCode codes code).2]? = some code ∧
     ∃ ext, (addOpCode codes code).1 = codes ++ ext :=
   GraphBasics.addOpCode_spec codes code
+
+/-- each single transformation preserves well-formedness -/
+theorem step_insertQuant (pt : PTable) (m m' : Model) (sgi : Nat) (sg : Subgraph) (inp : TIn) (info : TInfoOut)
+    (hsg : m.subgraphs[sgi]? = some sg) (hwf : WF.modelOK m = true) (hinp : GraphStep.InpOK pt m sg inp)
+    (h : insertQuant pt m sgi inp = .ok (m', info)) : WF.modelOK m' = true :=
+  GraphStep.insertQuant_ok pt m m' sgi sg inp info hsg hwf hinp h
+
+theorem step_insertDequant (pt : PTable) (m m' : Model) (sgi : Nat) (sg : Subgraph) (inp : TIn) (info : TInfoOut)
+    (hsg : m.subgraphs[sgi]? = some sg) (hwf : WF.modelOK m = true) (hinp : GraphStep.InpOK pt m sg inp)
+    (h : insertDequant pt m sgi inp = .ok (m', info)) : WF.modelOK m' = true :=
+  GraphStep.insertDequant_ok pt m m' sgi sg inp info hsg hwf hinp h
+
+theorem step_quantizeTensor (pt : PTable) (m m' : Model) (sgi : Nat) (sg : Subgraph) (inp : TIn) (info : TInfoOut)
+    (hsg : m.subgraphs[sgi]? = some sg) (hwf : WF.modelOK m = true) (hinp : GraphStep.InpOK pt m sg inp)
+    (h : quantizeOnly pt m sgi inp = .ok (m', info)) : WF.modelOK m' = true :=
+  GraphStep.quantizeOnly_ok pt m m' sgi sg inp info hsg hwf hinp h
+
+/-- the transformation performer (op-id maps, all tensors, all subgraphs) preserves well-formedness
+    for instruction lists that are consistent with the input graph and chain-free -/
+theorem performer_wf (pt : PTable) (m m' : Model) (tis : List TInsts)
+    (hwf : WF.modelOK m = true) (hok : ∀ ti ∈ tis, GraphInv.TInstsOK pt m ti)
+    (h : transformGraph pt m tis = .ok m') : WF.modelOK m' = true :=
+  GraphInv.transformGraph_ok pt m m' tis hwf hok h
+
+/-- **graph stage of quantize()**: for every well-formed input graph and every set of tensor
+    requests of the closed shape the registered algorithms produce (`ReqOK`), instruction generation
+    followed by the performer either fails (`.error`) or returns a well-formed graph -/
+theorem modify_wf (pt : PTable) (m m' : Model) (reqs : List TReq)
+    (hwf : WF.modelOK m = true) (hnames : GenInstsOK.namesUnique m)
+    (hreq : ∀ r ∈ reqs, GenInstsOK.ReqOK pt m r)
+    (h : Perform.modify pt m reqs = .ok m') : WF.modelOK m' = true :=
+  GenInstsOK.modify_ok pt m m' reqs hwf hnames hreq h
 
 end C01
